@@ -1886,6 +1886,15 @@ func Main(targets []*Target) {
 			return
 		}
 	}
+	if prop == "C12" {
+		for _, t := range handTargets() {
+			if err := t.init(); err != nil {
+				Note("hand-made target left out, cannot load descriptors of " + t.Schema + "/" + t.Variant + ": " + err.Error())
+				continue
+			}
+			targets = append(targets, t)
+		}
+	}
 	rn := &runner{prop: prop, tier: tier, r: prng.New(seed)}
 	n := 12
 	if tier == "thorough" {
